@@ -199,10 +199,37 @@ RECV = {"ldap": ".ldap", "stream": ".stream", "self.ldap": ".ldap", "self.stream
         "self.stream.ldap_handle()": ".streamLdap"}
 
 
+def normalise_body(owner, b):
+    """bring harmless spelling variants of a delegation body to the canonical one (the same
+    normalisation is done by the lane's own reader in harness/src/lanes/sync.rs):
+    other names for the two local aliases, `async {` for `async move {`, no aliases at all
+    (`self.rt.block_on(async move { self.ldap.f(..).await })`), no async block (`rt.block_on(ldap.f(..))`)"""
+    rt_path, recv_path, recv = {"LdapConn": ("self.rt", "self.ldap", "ldap"),
+                                "EntryStream": ("self.conn.rt", "self.stream", "stream")}[owner]
+    b = b.replace("async{", "async move{")
+    m = re.match(r"let (\w+)=&mut %s;let (\w+)=&mut %s;" % (re.escape(rt_path), re.escape(recv_path)), b)
+    if m and (m.group(1), m.group(2)) != ("rt", recv):
+        x, y = m.group(1), m.group(2)
+        if x != y:
+            b = re.sub(r"\b%s\b" % re.escape(y), "\0RECV\0", b)
+            b = re.sub(r"\b%s\b" % re.escape(x), "rt", b)
+            b = b.replace("\0RECV\0", recv)
+    pre = "let rt=&mut %s;let %s=&mut %s;" % (rt_path, recv, recv_path)
+    # no aliases: self.rt.block_on(async move{self.ldap.f(..).await}) [possibly `let stream=...?;Ok(..)`]
+    direct = "%s.block_on(async move{%s." % (rt_path, recv_path)
+    if direct in b and not b.startswith(pre):
+        b = pre + b.replace(direct, "rt.block_on(async move{%s." % recv)
+    # no async block: rt.block_on(ldap.f(..))
+    m = re.fullmatch(re.escape(pre) + r"rt\.block_on\(%s\.(\w+)\((.*)\)\)" % recv, b)
+    if m and ".await" not in b:
+        b = pre + "rt.block_on(async move{%s.%s(%s).await})" % (recv, m.group(1), m.group(2))
+    return b
+
+
 def classify_sync(owner, it):
     ps = param_names(it)
     env = {p: "(.param %d)" % i for i, p in enumerate(ps)}
-    b = it["body"]
+    b = normalise_body(owner, it["body"])
     if it["is_async"]: raise Unparsable("async fn in sync.rs")
     pre = {"LdapConn": ("let rt=&mut self.rt;let ldap=&mut self.ldap;", "self.rt", "ldap"),
            "EntryStream": ("let rt=&mut self.conn.rt;let stream=&mut self.stream;", "self.conn.rt", "stream")}[owner]
